@@ -229,6 +229,13 @@ def legalExample : File :=
        .simple .mark 8 8 [] [] [], .simple .mark 9 9 [] [] []]))]⟩
 
 example : wfFileFunc legalExample = true := by decide
+example : linesInFuncOK legalExample = true := by decide
+/-- the hypotheses of `C03.line_guard` are met by the statement on line 6 (inside the `if` body)
+    and the one on line 9 of the example -/
+example : WalkedL 6 [Stmt.ifS 4 7 [] none (some (4, 4)) [] 4 7 [.simple .mark 6 6 [] [] []] [],
+    .simple .mark 8 8 [] [] [], .simple .mark 9 9 [] [] []] := .head (.ifB (.head .mark))
+example : WalkedL 9 [Stmt.ifS 4 7 [] none (some (4, 4)) [] 4 7 [.simple .mark 6 6 [] [] []] [],
+    .simple .mark 8 8 [] [] [], .simple .mark 9 9 [] [] []] := .tail (.tail (.head .mark))
 example : (marks legalExample .line [(4, 1), (9, 1)]).toOption.map (·.multi) = some [6, 9] := by decide +kernel
 
 /-- non-vacuity: a file with a body-less declaration and a function with a body -/
